@@ -406,8 +406,30 @@ func (c15) Run(e *simkit.Env, cc any) {
 		case "hugelen":
 			send([]byte{87, 1, 0xff, 0xff, 0xff, 0xff, 1, 2, 3}, 50*time.Millisecond)
 		case "replay-hello":
-			if all0 != nil {
+			if all0 != nil && e.R.Intn(2) == 0 {
 				send(all0, 300*time.Millisecond)
+			} else if all0 != nil {
+				// frame by frame, leaving the acceptor time to answer in between (it reads one
+				// message at a time and drops what came with it)
+				conn, err := dialB()
+				if err == nil {
+					rest := all0
+					for len(rest) >= 6 && rest[0] == 87 {
+						l := 6 + int(binary.BigEndian.Uint32(rest[2:6]))
+						if l > len(rest) {
+							break
+						}
+						conn.Write(rest[:l])
+						rest = rest[l:]
+						time.Sleep(100 * time.Millisecond)
+						e.Gate("adversary")
+					}
+					conn.Write(rest)
+					conn.Write(forged)
+					time.Sleep(200 * time.Millisecond)
+					e.Gate("adversary")
+					conn.Close()
+				}
 			}
 		case "replay-join":
 			if join != nil {
